@@ -208,13 +208,27 @@ def worker_dir(base):
 
 
 def sh(cmd, cwd, env=None, timeout=900):
+    """run a shell pipeline in its own process group; on timeout kill the WHOLE group (a mutant can make a test binary
+    loop forever: killing only the shell leaves the binary burning a core)"""
+    import signal
     e = dict(os.environ); e["CARGO_NET_OFFLINE"] = "true"
     if env: e.update(env)
+    p = subprocess.Popen(cmd, cwd=cwd, env=e, shell=True, stdout=subprocess.PIPE, stderr=subprocess.STDOUT, text=True, start_new_session=True)
     try:
-        p = subprocess.run(cmd, cwd=cwd, env=e, shell=True, stdout=subprocess.PIPE, stderr=subprocess.STDOUT, text=True, timeout=timeout)
-        return p.returncode, p.stdout
+        out, _ = p.communicate(timeout=timeout)
+        return p.returncode, out
     except subprocess.TimeoutExpired:
+        try:
+            os.killpg(p.pid, signal.SIGKILL)
+        except ProcessLookupError:
+            pass
+        p.communicate()
         return 124, "timeout"
+    finally:
+        try:
+            os.killpg(p.pid, signal.SIGKILL)
+        except (ProcessLookupError, PermissionError):
+            pass
 
 
 def run_mutant(mu, base, allchecks, pmap, allprops):
@@ -262,6 +276,9 @@ def run_mutant(mu, base, allchecks, pmap, allprops):
 
 def main():
     a = sys.argv[1:]
+    if "--help" in a or "-h" in a:
+        print(__doc__)
+        return
     def opt(name, default=None):
         if name in a:
             return a[a.index(name) + 1]
